@@ -44,6 +44,10 @@ claim("C12", "path-sensitive SSA fact walk (lock protocol order, release-on-all-
       "Structural necessary condition only: the SHAPE of the refresh protocol (single refresh site; refresh reachable only after lock obtained -> reload -> overwrite -> second needsRefresh; releasing defer on every lock-holding exit; stale sessions accepted only via validateSession's verdict; loader clears on failure; ticket reuse; lock sentinel mapping). Level 'other': schedules are NOT explored, so 'exactly one refresh' is not claimed.",
       TRUST + " Not decided: interleavings, lock expiry vs IdP latency, token rotation behaviour.", "DESIGN.md §5 C12")
 
+claim("C04", "path-sensitive SSA fact walk (same-token rule) + composite-literal field enumeration + closed writer sets + override delegation",
+      "Structural necessary condition for all tokens/configurations: a session is built from claims only on paths where that same token passed Verify; Verify succeeds only with go-oidc ok and the own audience-membership check; no oidc.Config disables expiry/signature and issuer skipping comes only from the explicit option; email_verified gate on every success return; bearer loader list closed; OIDC-embedding overrides delegate. Level 'other'.",
+      TRUST + " Not decided: claim-value equality, go-oidc internals; legacy Azure extractClaimsIntoSession is an unclaimed site.", "DESIGN.md §5 C04")
+
 for i in range(2, 21):
     pid = "C%02d" % i
     if pid not in T:
